@@ -3,7 +3,7 @@
 R10.1 every I/O call of libovni has its failure handled: the failing path dies, or returns an
       error that every caller propagates to a die or to the documented warn-only sink
 R10.2 the temporary copy of a stream is removed only after a copy whose every step succeeded
-R10.3 short writes (shared with C01 R1.3; re-checked here for the error arm)
+R10.3 short and failing writes of the event buffer (same evaluation as C01 R1.3)
 """
 import json
 import os
@@ -39,7 +39,9 @@ def run(ctx):
              (sorted(IO), sorted(EXC)))
     ctx.rule("R10.2", "remove() of a stream's temporary file is reachable only on paths where every fread / "
              "fwrite / fclose of its copy was checked and succeeded")
-    ctx.rule("R10.3", "write_evbuf dies when write() fails (no silent loss of flushed events)")
+    ctx.rule("R10.3", "write_evbuf dies when write() fails, and after a short write it continues at the first "
+             "unwritten byte with the remaining length until nothing remains (no silent loss or corruption of "
+             "flushed events)")
     reg = errflow.Registry(prog)
 
     def unk_default(cal):
@@ -224,8 +226,8 @@ def run(ctx):
                   "is still removed" % cal)
 
     # ---- R10.3 ---------------------------------------------------------------------------
+    # a short write is an I/O fault too: the loop must resume where the kernel stopped (same evaluation as C01 R1.3)
+    from rules.C01 import _check_write_loop
+    from rules.rtcommon import buffer_capacity
     wf = prog.fn("write_evbuf", OV)
-    ex = absint.Explorer(prog, effects=eff, summaries={"write": lambda ex_, st, args, f, e: [(INT(-1), {})]}, loop_bound=3)
-    outs = ex.run(wf, [PTR("BUF", (0,)), ex.sym("n", 1, 1 << 21)], {})
-    ctx.check(bool(outs) and all(o.kind == "die" for o in outs), "R10.3", "write_evbuf:error-dies", wf.loc(),
-              "a failing write() does not abort")
+    _check_write_loop(ctx, prog, eff, buffer_capacity(ctx), wf, rule="R10.3")
